@@ -168,9 +168,8 @@ func TestVerif(t *testing.T) {
 			return
 		}
 		for _, a := range alpha {
-			if k > 0 && seq[k-1] == a {
-				continue // a repeated report is a no-op by the diagram
-			}
+			// (a repeated report is a no-op by the diagram, but the shared component remembers it like any other report: it
+			// takes a place in the bounded history that is replayed to a late instance - so repeats ARE enumerated)
 			rec(append(seq, a))
 		}
 	}
